@@ -1,21 +1,46 @@
 #!/bin/sh
-# usage: tools/static_matrix.sh <scratch worktree of /repo> <scratch copy of /verif/lean>
-# For every seeded change: apply it to the scratch worktree, translate (tools/rs2lean.py) into the scratch Lean project and
-# rebuild every tie module; record which tie groups are unavailable (outside the translator's subset) and which tie
-# theorems no longer check.  Writes seeded/<P>/<m>/static.txt.  Nothing in /repo or /verif/lean is touched.
-wt="$1"; lc="$2"
+# usage: tools/static_matrix.sh <scratch worktree of /repo> <scratch copy of /verif/lean> [<seeded dir> ...]
+# For every seeded change (default: all of seeded/C*/m*): apply it to the scratch worktree, translate (tools/rs2lean.py)
+# into the scratch Lean project and rebuild every tie module named in a `ktie` list of tools/props.py; record which tie
+# groups are unavailable (outside the translator's subset) and which tie theorems no longer check.
+# Writes seeded/<P>/<m>/static.txt.  Nothing in /repo or /verif/lean is touched.
+wt="$1"; lc="$2"; shift 2
 cd /verif
-mods="KTieStd KTieDir KTieIdx KTiePS KTieGrp KTieGrpPoll KTieMergeV KTieRaceV KTieJoinV KTieTryJoinV KTieZipV KTieChainV"
-for d in seeded/C*/m*; do
+mods=$(python3 - <<'EOF'
+import sys
+sys.path.insert(0, '/verif/tools')
+import props
+gs = []
+for p in props.PROPS.values():
+    for g in p.get('ktie', []):
+        if g not in gs:
+            gs.append(g)
+print(" ".join("KTie" + g for g in gs))
+EOF
+)
+[ $# -gt 0 ] || set -- seeded/C*/m*
+for d in "$@"; do
   [ -f $d/patch.diff ] || continue
   git -C $wt checkout -q -- . ; git -C $wt clean -fdq src
   git -C $wt apply /verif/$d/patch.diff 2>/dev/null || { echo "patch does not apply" > $d/static.txt; continue; }
   python3 tools/rs2lean.py --repo $wt --outdir $lc/FcGen > /tmp/static_tr.log 2>&1
-  una=$(head -1 /tmp/static_tr.log | tr ',;' '\n\n' | grep UNAVAILABLE | sed 's/: UNAVAILABLE//; s/ //g' | tr '\n' ' ')
+  una=$(python3 - $lc <<'EOF'
+import json, sys
+r = json.load(open(sys.argv[1] + '/FcGen/KSrc.report.json'))
+print(" ".join(g for g, v in r['groups'].items() if not v['available']))
+EOF
+)
   broken=""
+  targets=""
   for m in $mods; do
-    (cd $lc && lake build FcProps.$m > /tmp/static_kt.log 2>&1) || broken="$broken $m"
+    case " $una " in *" ${m#KTie} "*) ;; *) targets="$targets FcProps.$m";; esac
   done
+  if ! (cd $lc && lake build $targets > /tmp/static_kt.log 2>&1); then
+    # lake names the module that logged the error (often a lemma file), not the tie modules that import it
+    for t in $targets; do
+      (cd $lc && lake build $t > /dev/null 2>&1) || broken="$broken ${t#FcProps.}"
+    done
+  fi
   echo "unavailable: ${una:-none} | broken:${broken:- none}" > $d/static.txt
   echo "$d: $(cat $d/static.txt)"
 done
